@@ -129,6 +129,7 @@ type VC struct {
 	callCount   map[string]int
 	defers      []*ssa.Defer
 	deferReach  map[*ssa.Defer]string
+	lkRelInit   bool
 	guardOf     map[ssa.Value]string // address of a guarded field -> address of its mutex
 	mainBlock   *ssa.BasicBlock // the block of vc.fn being executed (also while a callee is executed in place)
 	closArgs    []*closureInfo // closures passed as arguments of the call being executed (see applySpec)
